@@ -116,10 +116,10 @@ def lineOps (s : DState) (line : String) : List ROp × Bool :=
         let o := onInit ⟨.dataK, prs, none, none, true, none, none, .ret .none, .ret .none⟩
         ([.reply (id ++ "|" ++ o.reply)], false)
       | _ => ([], false)
-    else if m = "CLOSE" ∧ id = "0" ∧ !s.initExpected then
-      -- an honoured close request (the agreed version 1.8.3 supports close packets; the scenarios send it last, with a
-      -- well-formed parameter map)
-      ([.quit, .poolShutdown], false)
+    else if m = "CLOSE" ∧ id = "0" then
+      -- an honoured close request (close packets are expected until a version without them has been agreed, hence also
+      -- BEFORE the init request; the Data scenarios agree 1.8.3; the request is the last line sent, with a well-formed map)
+      ([.quit, .poolShutdown], s.initExpected)
     else if (m = "SUB" ∨ m = "USB") ∧ !s.initExpected then
       match decodeRequest m toks with
       | some (.ok ⟨[.str (some item)], _⟩) => ([.req item ⟨id, m = "SUB"⟩], false)
